@@ -3,6 +3,7 @@ import StepModel.ExpDeclSyn
 import StepModel.ExpLex
 import StepModel.ExpEntitySyn
 import StepModel.ExpStmtSyn
+import StepModel.ExpTypeDeclSyn
 /-! Line-protocol driver for the exppp model (property C07).
 
   pp <linelen> <t:0|1> <c:0|1> SCHEMA…      -> `P <escaped text>` | `parse-error`
@@ -327,6 +328,40 @@ def handle (line : String) : String :=
     match lex (unhexL h.toList) with
     | some ts => "L " ++ " ".intercalate (ts.map wordOfTok)
     | none => "lex-error"
+  | "typedecl" :: rest =>
+    -- `typedecl <hex name> (T <type> | EN <n> <hex>… | SL <n> <hex>…) <n rules> <label|->…`
+    let rd : Rd TypeDeclS := do
+      let name ← hexw
+      let body ← (do
+        match (← word) with
+        | "T" => pure (TyBody.ty (← rdTy))
+        | "EN" => pure (TyBody.enum (← rep (← nat) hexw))
+        | "SL" => pure (TyBody.select (← rep (← nat) hexw))
+        | _ => failure)
+      let dom ← rep (← nat) (do
+        let l ← word
+        pure ({ label := if l = "-" then none else some (unhex l), expr := .ident "E" } : DomRule))
+      pure { name, body, dom }
+    match rd.run rest with
+    | some (d, []) =>
+      let ts := typeDeclToks d
+      let back := parseTypeDecl (8 * ts.length + 64) (ts ++ [.kw "X"])
+      "D " ++ " ".intercalate (ts.map dtokStr) ++ (if back == some (d, [.kw "X"]) then " | roundtrip-ok" else " | roundtrip-differs")
+    | _ => "bad-op"
+  | "consts" :: n :: rest =>
+    -- `consts <n> {<hex name> <type>}`
+    match n.toNat? with
+    | some n =>
+      match (rep n (do
+          let name ← hexw
+          let ty ← rdTy
+          pure ({ name, ty, init := .ident "E" } : ConstDeclS))).run rest with
+      | some (cs, []) =>
+        let ts := constsToks cs
+        let back := parseConsts (8 * ts.length + 64) (ts ++ [.kw "X"])
+        "D " ++ " ".intercalate (ts.map dtokStr) ++ (if back == some (cs, [.kw "X"]) then " | roundtrip-ok" else " | roundtrip-differs")
+      | _ => "bad-op"
+    | none => "bad-op"
   | "stmts" :: rest =>
     match rdStmtList.run rest with
     | some (b, []) =>
